@@ -1,7 +1,7 @@
 /-
   SlacModel.Registry — the builtin table of src/stdlib/*::functions(): name ↦ model function.
   The inner `Option` is `none` where the model does not cover a call (see SlacModel.Time, `str` of arrays);
-  the outer `Option` is `none` for names that are not modelled at all (rfc functions, regex, random, choice).
+  the outer `Option` is `none` for names that are not modelled at all (regex, random, choice).
 -/
 import SlacModel.Stdlib
 import SlacModel.StdOrder
